@@ -421,6 +421,9 @@ pub struct HistCase {
     pub reader_seed: u64,
     /// reference phases on brand-new OS threads
     pub pristine: bool,
+    /// the parser under test is built from clones of every combinator node (generated subjects)
+    #[serde(default)]
+    pub clone_nodes: bool,
 }
 
 #[derive(Clone, Debug, Serialize, Deserialize)]
@@ -549,14 +552,14 @@ where
     (ops_v, Ran { mismatch, results, refs, discarded: false })
 }
 
-fn drive_plain<'a, I, P>(fresh: &(dyn Fn() -> P + Sync), mk: &(dyn Fn(usize) -> I + Sync), npool: usize, plan: Plan<'_>, pristine: bool) -> (Vec<Op>, Ran)
+fn drive_plain<'a, I, P>(fresh: &(dyn Fn() -> P + Sync), root: &(dyn Fn() -> P + Sync), mk: &(dyn Fn(usize) -> I + Sync), npool: usize, plan: Plan<'_>, pristine: bool) -> (Vec<Op>, Ran)
 where
     I: Input<'a>,
     I::Token: Tok,
     I::Span: SpanX,
     P: Parser<'a, I, Val, Ex<'a, I>> + Clone + 'a,
 {
-    drive::<I, P>(fresh, mk, npool, plan, pristine, &|ops| run_history::<I, P>(fresh(), mk, npool, ops))
+    drive::<I, P>(fresh, mk, npool, plan, pristine, &|ops| run_history::<I, P>(root(), mk, npool, ops))
 }
 
 pub fn char_text(syms: &[u8]) -> String {
@@ -656,12 +659,28 @@ impl<'a, 'r> ZooVisitor<'a, (Vec<Op>, Ran)> for ZooDrive<'a, 'r> {
         let texts = self.texts;
         let fresh = move || f();
         let mk = move |i: usize| &texts[i][..];
-        drive_plain::<&str, P>(&fresh, &mk, texts.len(), self.plan, self.pristine)
+        drive_plain::<&str, P>(&fresh, &fresh, &mk, texts.len(), self.plan, self.pristine)
     }
 }
 
 /// Run one fully specified case (`Plan::Given`) or generate its history first (`Plan::Gen`).
-pub fn run_spec(subject: &Subject, pool_syms: &[Vec<u8>], pool_text: &[String], reader_seed: u64, plan: Plan<'_>, pristine: bool) -> (Vec<Op>, Ran) {
+/// Build with every combinator node replaced by its own clone (see build::set_clone_nodes).
+fn cloned_build<'a, I>(g: &G, on: bool) -> BP<'a, I>
+where
+    I: crate::build::Caps<'a>,
+    I::Token: Tok,
+    I::Span: SpanX,
+{
+    crate::build::set_clone_nodes(on);
+    let r = std::panic::catch_unwind(std::panic::AssertUnwindSafe(|| build::<I>(g)));
+    crate::build::set_clone_nodes(false);
+    match r {
+        Ok(p) => p,
+        Err(e) => std::panic::resume_unwind(e),
+    }
+}
+
+pub fn run_spec(subject: &Subject, pool_syms: &[Vec<u8>], pool_text: &[String], reader_seed: u64, plan: Plan<'_>, pristine: bool, clone_nodes: bool) -> (Vec<Op>, Ran) {
     let n = pool_syms.len();
     let toks: Vec<Vec<u8>> = pool_syms.iter().map(|v| v.iter().map(|s| u8::from_sym(*s)).collect()).collect();
     let toks = &toks;
@@ -669,14 +688,15 @@ pub fn run_spec(subject: &Subject, pool_syms: &[Vec<u8>], pool_text: &[String], 
         Subject::Dyn { grammar, kind } => {
             let g = grammar;
             match kind {
-                InKind::Slice => drive_plain::<&[u8], BP<'_, &[u8]>>(&|| build::<&[u8]>(g), &move |i: usize| &toks[i][..], n, plan, pristine),
+                InKind::Slice => drive_plain::<&[u8], BP<'_, &[u8]>>(&|| build::<&[u8]>(g), &|| cloned_build::<&[u8]>(g, clone_nodes), &move |i: usize| &toks[i][..], n, plan, pristine),
                 InKind::Str => {
                     let texts: Vec<String> = pool_syms.iter().map(|v| char_text(v)).collect();
                     let texts = &texts;
-                    drive_plain::<&str, BP<'_, &str>>(&|| build::<&str>(g), &move |i: usize| &texts[i][..], n, plan, pristine)
+                    drive_plain::<&str, BP<'_, &str>>(&|| build::<&str>(g), &|| cloned_build::<&str>(g, clone_nodes), &move |i: usize| &texts[i][..], n, plan, pristine)
                 }
                 InKind::Stream => drive_plain::<Stream<SimIter<u8>>, BP<'_, Stream<SimIter<u8>>>>(
                     &|| build::<Stream<SimIter<u8>>>(g),
+                    &|| cloned_build::<Stream<SimIter<u8>>>(g, clone_nodes),
                     &move |i: usize| Stream::from_iter(SimIter::new(Rc::new(toks[i].clone()), Hint::Exact).0),
                     n,
                     plan,
@@ -684,6 +704,7 @@ pub fn run_spec(subject: &Subject, pool_syms: &[Vec<u8>], pool_text: &[String], 
                 ),
                 InKind::Io => drive_plain::<IoInput<SimReader>, BP<'_, IoInput<SimReader>>>(
                     &|| build::<IoInput<SimReader>>(g),
+                    &|| cloned_build::<IoInput<SimReader>>(g, clone_nodes),
                     &move |i: usize| {
                         let mut r = Rng::new(reader_seed ^ (i as u64).wrapping_mul(0x9E37));
                         let pol = ReaderPolicy::legal(&mut r, toks[i].len(), &[]);
@@ -797,6 +818,9 @@ impl HistSim {
             acc.inc(k);
         }
         acc.add("sim_steps.history_ops", case.ops.len() as u64);
+        if case.clone_nodes && matches!(case.subject, Subject::Dyn { .. }) {
+            acc.inc("histories.parser_built_from_node_clones");
+        }
         // histories in which a failing parse precedes a succeeding one on the same handle, and v.v.
         let mut by_h: BTreeMap<usize, Vec<Option<bool>>> = BTreeMap::new();
         for r in &ran.results {
@@ -921,8 +945,8 @@ impl HistSim {
                         let mismatch = judge(&refs, &refs, &results);
                         if mismatch.is_some() {
                             // does this one history fail on its own (replayed as an ordinary case)?
-                            let case = HistCase { subject: Subject::Zoo { z }, pool_syms: vec![], pool_text: texts.to_vec(), ops: ops.clone(), reader_seed: 0, pristine: true };
-                            let alone = on_pristine_thread(|| run_spec(&case.subject, &case.pool_syms, &case.pool_text, 0, Plan::Given(&case.ops), true).1);
+                            let case = HistCase { subject: Subject::Zoo { z }, pool_syms: vec![], pool_text: texts.to_vec(), ops: ops.clone(), reader_seed: 0, pristine: true, clone_nodes: false };
+                            let alone = on_pristine_thread(|| run_spec(&case.subject, &case.pool_syms, &case.pool_text, 0, Plan::Given(&case.ops), true, false).1);
                             if alone.mismatch.is_none() {
                                 // only after the earlier histories of this enumeration: the replay is the enumeration itself
                                 let m = mismatch.unwrap();
@@ -938,7 +962,7 @@ impl HistSim {
                                 return d;
                             }
                         }
-                        let case = HistCase { subject: Subject::Zoo { z }, pool_syms: vec![], pool_text: texts.to_vec(), ops, reader_seed: 0, pristine: true };
+                        let case = HistCase { subject: Subject::Zoo { z }, pool_syms: vec![], pool_text: texts.to_vec(), ops, reader_seed: 0, pristine: true, clone_nodes: false };
                         let ran = Ran { mismatch, results, refs: BTreeMap::new(), discarded: false };
                         count += 1;
                         d = fold(d, me.record(acc, seed, idx, &case, &ran));
@@ -950,7 +974,7 @@ impl HistSim {
                 let refs2 = on_pristine_thread(|| references::<&str, P>(&fresh, &mk, &keys, REF_TICK_CAP));
                 acc.add("evaluations.reference_parses", 2 * refs.len() as u64);
                 if let Some(m) = judge(&refs, &refs2, &[]) {
-                    let case = HistCase { subject: Subject::Zoo { z }, pool_syms: vec![], pool_text: texts.to_vec(), ops: vec![], reader_seed: 0, pristine: true };
+                    let case = HistCase { subject: Subject::Zoo { z }, pool_syms: vec![], pool_text: texts.to_vec(), ops: vec![], reader_seed: 0, pristine: true, clone_nodes: false };
                     let ran = Ran { mismatch: Some(m), results: vec![], refs: BTreeMap::new(), discarded: false };
                     d = fold(d, me.record(acc, seed, idx, &case, &ran));
                 }
@@ -982,6 +1006,7 @@ pub fn gen_case(seed: u64, idx: u64) -> Option<(HistCase, Rng, GenOpsCfg)> {
     let pick = rng.below(10);
     let reader_seed = rng.next_u64();
     let pristine = rng.chance(1, 8);
+    let clone_nodes = rng.chance(1, 3);
     if pick == 0 {
         // zoo grammar, random history
         let z = rng.usize(zoo::ZOO_NAMES.len());
@@ -991,7 +1016,7 @@ pub fn gen_case(seed: u64, idx: u64) -> Option<(HistCase, Rng, GenOpsCfg)> {
         for _ in 0..n {
             texts.push(all[rng.usize(all.len())].to_string());
         }
-        return Some((HistCase { subject: Subject::Zoo { z }, pool_syms: vec![], pool_text: texts, ops: vec![], reader_seed, pristine }, rng, cfg));
+        return Some((HistCase { subject: Subject::Zoo { z }, pool_syms: vec![], pool_text: texts, ops: vec![], reader_seed, pristine, clone_nodes }, rng, cfg));
     }
     let is_str = pick == 1 || pick == 2;
     let mut gcfg = GenCfg::swarm(&mut rng, true);
@@ -1014,7 +1039,7 @@ pub fn gen_case(seed: u64, idx: u64) -> Option<(HistCase, Rng, GenOpsCfg)> {
         _ => Subject::Dyn { grammar: g, kind: InKind::Slice },
     };
     let _ = is_str;
-    Some((HistCase { subject, pool_syms: pool, pool_text: vec![], ops: vec![], reader_seed, pristine }, rng, cfg))
+    Some((HistCase { subject, pool_syms: pool, pool_text: vec![], ops: vec![], reader_seed, pristine, clone_nodes }, rng, cfg))
 }
 
 impl Engine for HistSim {
@@ -1040,7 +1065,7 @@ impl Engine for HistSim {
             return self.enumerated(seed, idx, tier, acc);
         }
         let Some((mut case, mut rng, cfg)) = gen_case(seed, idx) else { return 0 };
-        let (ops, ran) = run_spec(&case.subject, &case.pool_syms, &case.pool_text, case.reader_seed, Plan::Gen(&mut rng, &cfg), case.pristine);
+        let (ops, ran) = run_spec(&case.subject, &case.pool_syms, &case.pool_text, case.reader_seed, Plan::Gen(&mut rng, &cfg), case.pristine, case.clone_nodes);
         case.ops = ops;
         acc.inc("evaluations.histories");
         self.record(acc, seed, idx, &case, &ran)
@@ -1052,7 +1077,7 @@ impl Engine for HistSim {
 
 pub fn replay(rp: &Replay) -> Option<(String, Option<usize>, Outcome, Outcome)> {
     let c = &rp.spec;
-    let (_, ran) = run_spec(&c.subject, &c.pool_syms, &c.pool_text, c.reader_seed, Plan::Given(&c.ops), c.pristine);
+    let (_, ran) = run_spec(&c.subject, &c.pool_syms, &c.pool_text, c.reader_seed, Plan::Given(&c.ops), c.pristine, c.clone_nodes);
     ran.mismatch.map(|m| (m.class, m.op, m.expected, m.observed))
 }
 
